@@ -1206,11 +1206,15 @@ Theorem bern_row_zero_silent dt inps us j :
 Proof.
   intros Hz Hu.
   destruct (Nat.lt_ge_cases j (length inps)) as [Hj|Hj]; [destruct (Nat.lt_ge_cases j (length us)) as [Hju|Hju]|].
-  - rewrite bern_row_nth by auto. rewrite Hz, bern_prob_zero.
-    destruct (Rltb'_spec (nth j us 0) 0) as [Hlt|]; auto. exfalso.
-    rewrite Forall_forall in Hu. specialize (Hu _ (nth_In _ _ Hju)). lra.
-  - apply nth_overflow. unfold bern_row. rewrite map_length, combine_length. lia.
-  - apply nth_overflow. unfold bern_row. rewrite map_length, combine_length. lia.
+  - rewrite bern_row_nth by auto.
+    assert (E : bern_prob RN dt (nth j inps 0) = 0) by (rewrite Hz; apply bern_prob_zero).
+    match goal with |- Rltb' ?a ?b = false => destruct (Rltb'_spec a b) as [Hlt|]; auto end.
+    exfalso. rewrite Forall_forall in Hu. specialize (Hu _ (nth_In _ 0 Hju)).
+    apply (Rlt_irrefl 0). eapply Rle_lt_trans; [exact Hu|]. eapply Rlt_le_trans; [exact Hlt|]. right. exact E.
+  - apply nth_overflow. unfold bern_row. rewrite map_length, combine_length.
+    eapply Nat.le_trans; [apply Nat.le_min_r|exact Hju].
+  - apply nth_overflow. unfold bern_row. rewrite map_length, combine_length.
+    eapply Nat.le_trans; [apply Nat.le_min_l|exact Hj].
 Qed.
 
 Theorem bern_inhomogeneous_shape dt inps us :
@@ -1223,6 +1227,9 @@ Proof.
   intros t j Hz Hu. destruct (Nat.lt_ge_cases t (length inps)) as [Ht|Ht].
   - rewrite nth_map_lt with (d := ([], [])) by (rewrite combine_length; lia).
     rewrite combine_nth_lt by lia. simpl. apply bern_row_zero_silent; auto.
-    rewrite Forall_forall in Hu. apply Hu. apply nth_In. lia.
-  - rewrite nth_overflow by (rewrite map_length, combine_length; lia). destruct j; auto.
+    rewrite Forall_forall in Hu. apply Hu. apply nth_In.
+    pose proof Ht as Ht'. rewrite <- Hl in Ht'. exact Ht'.
+  - match goal with |- nth j (nth t ?l []) false = false =>
+      rewrite (nth_overflow l) by (rewrite map_length, combine_length; lia) end.
+    destruct j; auto.
 Qed.
